@@ -1,5 +1,7 @@
 import SeqIoModel.Proofs.FastaStream
 import SeqIoModel.Proofs.FastqStream
+import SeqIoModel.Proofs.FastaHistory
+import SeqIoModel.Proofs.FastqHistorySeek
 /-!
 # C05 – positions are true file coordinates and seeking to one restores the stream
 
@@ -31,5 +33,26 @@ theorem fastq_positions_true (inp : List UInt8) (cap : Nat) (hcap : 3 ≤ cap) (
 /-- S's coordinates on an input with leading blank lines (the case the pinned tree got wrong, D1):
 record `a` starts at byte 5 on line 6 -/
 example : Fasta.specObs [10, 10, 10, 10, 10, 62, 97, 10, 65, 67, 10] = [.record [97] [[65, 67]] 6 5] := by decide
+
+/-- FASTA, seek part: in the abstract reader `seekRec i` sets the cursor to record `i`, `pos` after a
+record must be its true coordinates and after a set read (if reported) those of the next unread
+record; every history with seeks from any reader state – target inside the buffer or not – is
+accepted, i.e. after a seek the reads return record `i` and then the rest exactly as sequential
+reading does. -/
+theorem fasta_seek_restores_stream (inp : List UInt8) (cap : Nat) (hcap : 3 ≤ cap) (pol : Pol)
+    (hpol : Fasta.PolGrows pol) (script : List ReadEv) (hs : NoFail script) (chunk : Nat)
+    (ops : List Fasta.Hist.Op) :
+    Fasta.Hist.runA (Fasta.Hist.items inp) Fasta.Hist.aInit ops
+      (Fasta.Hist.runM (Fasta.Hist.mkMSt inp cap pol script chunk) ops) = true :=
+  Fasta.Hist.fasta_history_accepted inp cap hcap pol hpol script hs chunk ops
+
+/-- FASTQ, seek part: `seekItem i` sets the abstract cursor to item `i` – a record, or the invalid group,
+whose error is then reproduced by the next read; `pos` after a seek is the target, after a record its
+true coordinates, after a set read those of the next unread record -/
+theorem fastq_seek_restores_stream (inp : List UInt8) (cap : Nat) (hcap : 3 ≤ cap) (pol : Pol)
+    (hpol : Fastq.PolGrows pol) (script : List ReadEv) (hs : NoFail script) (chunk : Nat)
+    (ops : List Fastq.Hist.Op) (hops : ∀ op ∈ ops, op.wf = true) :
+    Fastq.Hist.accepted inp (Fastq.Hist.mkM inp cap pol script chunk) ops = true :=
+  Fastq.fastq_history_accepted inp cap hcap pol hpol script hs chunk ops hops
 
 end SeqIo.Thm.C05
